@@ -1,0 +1,70 @@
+//go:build verif
+
+package innerring
+
+import (
+	"context"
+	"time"
+
+	"github.com/nspcc-dev/neo-go/pkg/crypto/keys"
+	"github.com/nspcc-dev/neo-go/pkg/util"
+	"github.com/nspcc-dev/neofs-node/pkg/morph/client"
+	nmClient "github.com/nspcc-dev/neofs-node/pkg/morph/client/netmap"
+	"github.com/nspcc-dev/neofs-node/pkg/morph/event"
+	control "github.com/nspcc-dev/neofs-node/pkg/services/control/ir"
+	"github.com/nspcc-dev/neofs-node/pkg/timers"
+	"go.uber.org/zap"
+)
+
+// VerifServerPrm groups the parts of the inner ring application the external conformance
+// harness (/verif, family irproc: C35, C38) needs: the REAL global-state methods of Server
+// (IsAlphabet, AlphabetIndex, InnerRingIndex, epoch counter, validator voting, notary deposit
+// handler) over the REAL innerRingIndexer, without the configuration / wallet / listener start-up.
+type VerifServerPrm struct {
+	Log                  *zap.Logger
+	Key                  *keys.PrivateKey
+	FSChain, Mainnet     *client.Client
+	Netmap               *nmClient.Client
+	AlphabetContracts    []util.Uint160
+	IndexerTimeout       time.Duration
+	PredefinedValidators keys.PublicKeys
+	MainNotaryDisabled   bool
+	EpochTimers          *timers.EpochTimers
+}
+
+// NewVerifServer builds a Server with exactly the fields listed in VerifServerPrm set the way
+// New sets them.
+func NewVerifServer(p VerifServerPrm) *Server {
+	s := &Server{
+		log:                  p.Log,
+		key:                  p.Key,
+		pubKey:               p.Key.PublicKey().Bytes(),
+		fsChainClient:        p.FSChain,
+		mainnetClient:        p.Mainnet,
+		netmapClient:         p.Netmap,
+		contracts:            &contracts{alphabet: p.AlphabetContracts},
+		predefinedValidators: p.PredefinedValidators,
+		mainNotaryConfig:     &notaryConfig{disabled: p.MainNotaryDisabled},
+		epochTimers:          p.EpochTimers,
+	}
+	s.setHealthStatus(control.HealthStatus_HEALTH_STATUS_UNDEFINED)
+	s.statusIndex = newInnerRingIndexer(p.FSChain, NewIRFetcherWithNotary(p.FSChain), p.Key.PublicKey(), p.IndexerTimeout)
+	return s
+}
+
+// VerifVoteOnStart is the validator vote Start performs.
+func (s *Server) VerifVoteOnStart(ctx context.Context) error {
+	return s.voteForFSChainValidator(ctx, s.predefinedValidators, nil)
+}
+
+// VerifNotaryDepositHandler is the handler New passes to the netmap processor as
+// NotaryDepositHandler.
+func (s *Server) VerifNotaryDepositHandler() event.Handler {
+	return s.onlyAlphabetEventHandler(s.notaryHandler)
+}
+
+// VerifResetIndexer drops the indexer cache (as restartFSChain does).
+func (s *Server) VerifResetIndexer() { s.statusIndex.reset() }
+
+// VerifSetPredefinedValidators sets the validators Start votes for (cfg.FSChain.Validators in New).
+func (s *Server) VerifSetPredefinedValidators(v keys.PublicKeys) { s.predefinedValidators = v }
